@@ -921,7 +921,8 @@ func TestCheck(t *testing.T) {
 		"loopback TCP between the real jsonrpc.Server and Client is reliable (transport failures are reported as machinery errors, not verdicts)",
 		"the backing DA honours a dead context (the double does; DummyDA does not and is therefore only run without cancellation and injection)",
 		"the backing DA fails before it stores anything (no store-then-fail injection); cancellation is only explored as a context that is already dead when the call starts (mid-flight cancellation is timing dependent)",
-		"client MaxBlobSize equals the backing DA's limit",
+		"client MaxBlobSize equals the backing DA's limit (sequential and concurrent part: both shrunk to `blob_size_limit` bytes; large-payload part: both are the default proxy.NewClient sets)",
+		"large-payload part: blob sizes and counts only within the stated grid (totals, shapes, tails in bounds.large_payload; smallest blob size and therefore largest encoding overhead per raw byte as stated); fault-free calls, one caller, HTTP over loopback TCP; a liveness guard of 5 minutes per case (a proxied call that has not returned by then is compared as a failed call); a failing case is run twice and counts only if it fails both times",
 		"server, client and node helpers keep no state between calls other than the backing store, the HTTP connection pool and the request counter: histories are merged when store contents and the status of the last call agree",
 		"messages and timestamps of DA results are not compared",
 		"concurrent part: another caller of the shared client can run at every log call of the client and of the server (the injected logger), between marshalling a request and handing it to the server (HTTP round trip) and at the entry of the DA; client.go/server.go are not preempted between two such points (da/jsonrpc is built with the lock shim: a caller waiting for a sync.Mutex/RWMutex of that package is parked until the lock is free instead of stalling the scheduler), the DA operation itself is atomic",
@@ -950,6 +951,20 @@ func TestCheck(t *testing.T) {
 			if c.Diverged != "" {
 				r.EngineError("nondeterminism (concurrent part): " + c.Diverged)
 			}
+		} else if rp.Large != nil {
+			if g, err := newRigWith(rp.Large.Backing, 0); err != nil {
+				r.EngineError(err.Error())
+			} else {
+				res := g.runLarge(*rp.Large)
+				g.close()
+				if res.engine != "" {
+					r.EngineError(res.engine)
+				}
+				for _, v := range res.viols {
+					v.Cost, v.History = 1, rp
+					r.Report(v)
+				}
+			}
 		} else if g, err := newRig(rp.Backing); err != nil {
 			r.EngineError(err.Error())
 		} else {
@@ -977,8 +992,8 @@ func TestCheck(t *testing.T) {
 	exhaustive := true
 
 	kinds := []string{"fake", "dummyda"}
-	only := os.Getenv("VERIF_C16_PART") // development aid: "seq" | "conc"; a partial run is reported as capped
-	if only == "conc" {
+	only := os.Getenv("VERIF_C16_PART") // development aid: "seq" | "large" | "conc"; a partial run is reported as capped
+	if only == "conc" || only == "large" {
 		kinds = nil
 	}
 	if only != "" {
@@ -1087,9 +1102,16 @@ func TestCheck(t *testing.T) {
 		}
 	}
 
+	// large-payload part (large_test.go): the same comparison with the client's real default size limit
+	var lr largeResult
+	if only == "" || only == "large" {
+		lr = largePart(r, workers, vf.Pick(r, 3*time.Minute, 12*time.Minute))
+		caps = append(caps, lr.Caps...)
+	}
+
 	// concurrent part (concurrent_test.go): callers sharing one client, every interleaving within the delay bound
 	var cr concResult
-	if only != "seq" {
+	if only == "" || only == "conc" {
 		cr = concPartSharded(t, r)
 	}
 	for i, v := range cr.Viols {
@@ -1118,7 +1140,7 @@ func TestCheck(t *testing.T) {
 	}
 	sort.Strings(pairList)
 	r.Finish(vf.Coverage{
-		Evaluations: histories.Load() + cr.Execs, DistinctNontrivial: int64(len(distinct) + len(concLins)), States: int64(len(states)), Transitions: calls.Load() + cr.DACalls,
+		Evaluations: histories.Load() + cr.Execs + lr.Cases, DistinctNontrivial: int64(len(distinct)+len(concLins)) + lr.Cases, States: int64(len(states)), Transitions: calls.Load() + cr.DACalls + lr.Calls,
 		Rule: "SEQUENTIAL PART: every history of at most `depth` calls whose non-final calls come from the core alphabet and whose final call ranges over the whole alphabet " +
 			"(SubmitWithHelpers with every blob list of length <=3 over sizes {0,1,limit-1,limit,limit+1} x {no fault, each injected backing error, caller context already cancelled}; " +
 			"RetrieveWithHelpers at heights 0..4 (empty, populated, future in both pre-states) x {no fault, each injected error at GetIDs, at Get, cancelled context}; one DA block passes), " +
@@ -1132,8 +1154,10 @@ func TestCheck(t *testing.T) {
 			"evaluations = sequential histories + interleavings executed, transitions = helper calls + DA calls behind the proxy, distinct additionally counts distinct (workload, DA call order) pairs",
 		Exhaustive: exhaustive && len(caps) == 0, Caps: caps,
 		Bounds: map[string]any{"depth": depth, "alphabet": len(acts), "core_alphabet": nCore, "blob_size_limit": limit, "blob_sizes": blobSizes, "max_list_len": 3,
-			"retrieve_heights": retrieveHeights, "injected_error_kinds": len(errKinds), "pre_states": []string{"empty", "populated"}, "backings": []string{"fake(error-injecting double)", "core/da.DummyDA"}, "runs": perRun, "concurrent": cr.Bounds},
-		Extra: map[string]any{"sequential_histories": histories.Load(), "concurrent_interleavings_executed": cr.Execs, "concurrent_interleavings_with_overlapping_calls": cr.Overlap,
+			"retrieve_heights": retrieveHeights, "injected_error_kinds": len(errKinds), "pre_states": []string{"empty", "populated"}, "backings": []string{"fake(error-injecting double)", "core/da.DummyDA"}, "runs": perRun, "concurrent": cr.Bounds, "large_payload": lr.Bounds},
+		Extra: map[string]any{"large_payload_cases": lr.Cases, "large_payload_calls": lr.Calls, "large_payload_raw_blob_bytes_through_the_proxy": lr.RawBytes,
+			"large_payload_largest_raw_request_bytes": lr.MaxReq, "large_payload_largest_raw_response_bytes": lr.MaxResp, "large_payload_outcome_classes": lr.Classes,
+			"sequential_histories": histories.Load(), "concurrent_interleavings_executed": cr.Execs, "concurrent_interleavings_with_overlapping_calls": cr.Overlap,
 			"concurrent_workloads": cr.Workloads, "concurrent_distinct_(workload, DA call order)": len(concLins), "concurrent_scheduling_decisions": cr.Points, "concurrent_max_decisions_in_one_interleaving": cr.MaxDepth,
 			"concurrent_DA_calls_behind_the_proxy": cr.DACalls, "concurrent_process_shards": cr.Shards,
 			"submit_histories": submitCalls.Load(), "histories_with_only_the_classified_status_degradation": affected.Load(), "submit_status_pairs_by_injected_error": pairList},
